@@ -1,6 +1,8 @@
 //! A parser run as an observable: the items handed out (canonical strings) and the final outcome.
 
 use crate::source::{ScriptedSource, SharedSrc, SourceCfg};
+#[allow(unused_imports)]
+use std::io::BufRead as _;
 use flussab::DeferredReader;
 use std::cell::RefCell;
 use std::panic::{catch_unwind, AssertUnwindSafe};
@@ -135,18 +137,27 @@ pub struct Execution {
     pub handed_out_at_item: Vec<usize>,
 }
 
-pub fn execute(
-    subject: &dyn Subject,
-    cfg: SourceCfg<'_>,
-    chunk_size: Option<usize>,
-    forced: Vec<(u32, u32)>,
-) -> Execution {
+pub fn execute(subject: &dyn Subject, cfg: SourceCfg<'_>, chunk_size: Option<usize>, forced: Vec<(u32, u32)>) -> Execution {
+    execute_via(subject, cfg, chunk_size, forced, None)
+}
+
+/// `via_buf_reader = Some(cap)`: the reader is built with `from_buf_reader` from a
+/// `BufReader::with_capacity(cap, source)` whose internal buffer has been filled once.
+pub fn execute_via(subject: &dyn Subject, cfg: SourceCfg<'_>, chunk_size: Option<usize>, forced: Vec<(u32, u32)>, via_buf_reader: Option<usize>) -> Execution {
     let (source, st) = ScriptedSource::new(cfg, forced);
     let mut items = Vec::new();
     let mut handed = Vec::new();
     let st2 = st.clone();
     let res = catch(|| {
-        let mut reader = DeferredReader::from_read(source);
+        let mut reader = match via_buf_reader {
+            None => DeferredReader::from_read(source),
+            Some(cap) => {
+                use std::io::BufRead;
+                let mut br = std::io::BufReader::with_capacity(cap.max(1), source);
+                let _ = br.fill_buf();
+                DeferredReader::from_buf_reader(br)
+            }
+        };
         if let Some(c) = chunk_size {
             reader.set_chunk_size(c);
         }
